@@ -114,7 +114,14 @@ def verify_function(table, reg, qual, cls, props, timeout_ms=None):
         a = f.node.args
         names = [x.arg for x in a.args] + [x.arg for x in a.kwonlyargs]
         env = {}
-        if f.cls and not f.is_staticmethod and not f.is_classmethod:
+        if f.cls and f.name == "__new__":
+            tc = z3.Int("cls")
+            subs = [x for x in eng.table.subclasses(cls) if x != cls] or [cls]
+            st.assume(z3.Or(*[tc == eng.class_id(x) for x in subs]))
+            env[names[0]] = SV(Ty("type"), tc)
+            eng.self_class = None
+            names = names[1:]
+        elif f.cls and not f.is_staticmethod and not f.is_classmethod:
             selfc = z3.Int("self")
             env[names[0]] = SV(REF(cls), selfc)
             st.assume(selfc > 0)
